@@ -408,3 +408,12 @@ func init() {
 		fmt.Println(string(b))
 	}
 }
+
+func init() {
+	debugHooks["errexit-baseline"] = func(p *ir.Program) {
+		c := &Ctx{P: p, R: report.New("DBG", "quick")}
+		b, _ := json.MarshalIndent(c.errorExits(boundsPkgs), "", " ")
+		fmt.Println("BASELINE-BEGIN")
+		fmt.Println(string(b))
+	}
+}
